@@ -166,6 +166,8 @@ pub struct FnCx<'g> {
     pub enclosing_label: Option<String>,
     /// `let x: &mut T = &mut y;`: x is another name for y
     pub aliases: HashMap<String, String>,
+    /// `let f = || expr;`: zero-argument closures bound to a name, expanded where the name is used as a thunk
+    pub thunks: HashMap<String, syn::Expr>,
 }
 
 pub type K<'a> = &'a dyn Fn(&mut FnCx, Option<Val>) -> R<String>;
@@ -327,6 +329,7 @@ pub fn rust_ty(t: &syn::Type) -> R<Ty> {
                 // Cow<[T]> / Cow<str>: the borrowed-or-owned distinction is not observable
                 "Cow" | "Arc" | "Rc" | "Box" => arg(0),
                 "BitVec" => Ok(Ty::list(Ty::Bool)),
+                "BTreeSet" => Ok(Ty::Set(Box::new(arg(0)?))),
                 "FxHashMap" | "HashMap" => Ok(Ty::Map(Box::new(arg(0)?), Box::new(arg(1)?))),
                 "Option" => Ok(Ty::opt(arg(0)?)),
                 "Result" => {
@@ -551,6 +554,74 @@ pub fn translate_unit(src: &Path, unit: &Unit, g: &mut Global) -> R<String> {
                 out.push_str(&text);
                 out.push('\n');
             }
+            Item::MethodRewritten(owner, method, new_name, params, result_ty, rewrites) => {
+                use quote::ToTokens;
+                let m = find_method(&file, owner, method)?;
+                let mut body_text = m.block.to_token_stream().to_string();
+                let canon = |t: &str| -> R<String> {
+                    let ts: proc_macro2::TokenStream = t.parse().map_err(|e| format!("internal: rewrite pattern `{}`: {}", t, e))?;
+                    Ok(ts.to_string())
+                };
+                for (pat, rep) in rewrites.iter() {
+                    let p = canon(pat)?;
+                    let r = canon(rep)?;
+                    if !body_text.contains(&p) {
+                        return Err(format!("unsupported: {}::{} no longer contains `{}` (rewrite rule of the reading)", owner, method, pat));
+                    }
+                    body_text = body_text.replace(&p, &r);
+                }
+                if rename_self(&body_text) != body_text {
+                    return Err(format!("unsupported: {}::{} still mentions `self` after the rewrites", owner, method));
+                }
+                let text_fn = format!("fn {}({}) -> {} {}", new_name, params, result_ty, body_text);
+                let synthetic: syn::ItemFn = syn::parse_str(&text_fn).map_err(|e| format!("internal: rewritten method: {}", e))?;
+                let sig = signature(g, &synthetic, unit.module)?;
+                g.fns.insert(new_name.to_string(), sig);
+                let (text, fuel) = translate_fn(g, &synthetic, unit.module)?;
+                g.fns.get_mut(&new_name.to_string()).unwrap().fuel = fuel;
+                out.push_str(&format!("/- `{}::{}` under the reading given by the rewrite rules in tools/rs2lean/src/targets.rs (signature: {}) -/\n", owner, method, params));
+                out.push_str(&text);
+                out.push('\n');
+            }
+            Item::ForBody(owner, func_name, var, new_name, params, result_ty, tail) => {
+                let block: syn::Block = if owner.is_empty() {
+                    (*find_fn(&file, &Item::Fn(func_name))?.block).clone()
+                } else {
+                    find_method(&file, owner, func_name)?.block.clone()
+                };
+                struct V<'a>(&'a str, Option<syn::Block>);
+                impl<'ast, 'a> syn::visit::Visit<'ast> for V<'a> {
+                    fn visit_expr_for_loop(&mut self, l: &'ast syn::ExprForLoop) {
+                        if self.1.is_none() {
+                            if let syn::Pat::Ident(pi) = &*l.pat {
+                                if pi.ident == self.0 {
+                                    self.1 = Some(l.body.clone());
+                                    return;
+                                }
+                            }
+                        }
+                        syn::visit::visit_expr_for_loop(self, l);
+                    }
+                }
+                let mut v = V(var, None);
+                syn::visit::Visit::visit_block(&mut v, &block);
+                let body = v.1.ok_or(format!("unsupported: no `for {} in` loop in {}", var, func_name))?;
+                if loop_left_early(&body) {
+                    return Err(format!("unsupported: the `for {}` loop of {} is left early (break/continue/return)", var, func_name));
+                }
+                use quote::ToTokens;
+                let body_text: String = body.stmts.iter().map(|s| s.to_token_stream().to_string()).collect::<Vec<_>>().join("\n");
+                let body_text = rename_self(&body_text);
+                let text_fn = format!("fn {}({}) -> {} {{ {} {} }}", new_name, params, result_ty, body_text, tail);
+                let synthetic: syn::ItemFn = syn::parse_str(&text_fn).map_err(|e| format!("internal: for-body function: {}", e))?;
+                let sig = signature(g, &synthetic, unit.module)?;
+                g.fns.insert(new_name.to_string(), sig);
+                let (text, fuel) = translate_fn(g, &synthetic, unit.module)?;
+                g.fns.get_mut(&new_name.to_string()).unwrap().fuel = fuel;
+                out.push_str(&format!("/- one iteration of the loop `for {} in …` of `{}::{}` as a function of its own (`self` is `this`) -/\n", var, owner, func_name));
+                out.push_str(&text);
+                out.push('\n');
+            }
             Item::ClosureBody(owner, func_name, param, new_name, params, result_ty) => {
                 let block: syn::Block = if owner.is_empty() {
                     (*find_fn(&file, &Item::Fn(func_name))?.block).clone()
@@ -667,6 +738,12 @@ pub fn translate_unit(src: &Path, unit: &Unit, g: &mut Global) -> R<String> {
                 let field = field.ok_or(format!("unsupported: `impl Deref for {}` of the form `&self.field` not found", name))?;
                 out.push_str(&format!("/- `impl Deref for {}`: derefs to its field `{}` (method calls it does not answer itself go there) -/\n\n", name, field));
                 g.derefs.insert(name.to_string(), field);
+            }
+            Item::Alias(name, text) => {
+                let t: syn::Type = syn::parse_str(text).map_err(|e| format!("internal: alias type: {}", e))?;
+                let ty = rust_ty(&t)?;
+                TYPE_ALIASES.with(|a| a.borrow_mut().insert(name.to_string(), ty));
+                out.push_str(&format!("/- the type `{}` is read as `{}` in this unit -/\n\n", name, text));
             }
             Item::Opaque(name) => {
                 g.opaques.push(name.to_string());
@@ -817,16 +894,35 @@ pub fn signature(_g: &Global, f: &syn::ItemFn, module: &str) -> R<FnSig> {
             let name = tp.ident.to_string();
             let mut fn_bound = None;
             let mut ord = false;
+            let mut stringy = false;
             for b in &tp.bounds {
                 if let syn::TypeParamBound::Trait(tb) = b {
                     let seg = tb.path.segments.last().unwrap();
                     match seg.ident.to_string().as_str() {
+                        // `T: Into<Arc<str>>`, `S: AsRef<str>`: the parameter is read as a string
+                        "Into" | "AsRef" => {
+                            let is_str = match &seg.arguments {
+                                syn::PathArguments::AngleBracketed(ab) => match ab.args.first() {
+                                    Some(syn::GenericArgument::Type(t)) => matches!(rust_ty(t), Ok(Ty::Str)),
+                                    _ => false,
+                                },
+                                _ => false,
+                            };
+                            if !is_str {
+                                return unsupported("Into/AsRef bound of a non-string", f.sig.span());
+                            }
+                            stringy = true;
+                        }
                         "Fn" | "FnMut" | "FnOnce" => fn_bound = Some(seg.arguments.clone()),
                         "Ord" | "PartialOrd" => ord = true,
                         "Eq" | "PartialEq" | "Copy" | "Clone" | "Sized" => {}
                         other => return unsupported(&format!("trait bound {}", other), f.sig.span()),
                     }
                 }
+            }
+            if stringy {
+                GENERICS.with(|g| g.borrow_mut().insert(name.clone(), Some(Ty::Str)));
+                continue;
             }
             match (pass, fn_bound) {
                 (0, None) => {
@@ -923,6 +1019,7 @@ pub fn translate_fn_named(g: &Global, f: &syn::ItemFn, module: &str, owner: Opti
             bit_views: HashMap::new(),
             enclosing_label: None,
             aliases: HashMap::new(),
+            thunks: HashMap::new(),
         };
         for p in &sig.params {
             cx.declare(&p.name, p.ty.clone());
@@ -983,6 +1080,63 @@ thread_local! {
 }
 
 /// stem of the Rust file the current unit is translated from
+/// `self` as an identifier token -> `this` (on the token text, where identifiers are space-separated or delimited)
+fn rename_self(text: &str) -> String {
+    let mut out = String::new();
+    let b: Vec<char> = text.chars().collect();
+    let mut i = 0;
+    while i < b.len() {
+        let is_start = i == 0 || !(b[i - 1].is_alphanumeric() || b[i - 1] == '_');
+        if is_start && b[i..].starts_with(&['s', 'e', 'l', 'f']) && (i + 4 == b.len() || !(b[i + 4].is_alphanumeric() || b[i + 4] == '_')) {
+            out.push_str("this");
+            i += 4;
+        } else {
+            out.push(b[i]);
+            i += 1;
+        }
+    }
+    out
+}
+
+/// does the body of a loop contain a `break`/`continue` of that loop or a `return`? (`?` is allowed: it leaves the function)
+fn loop_left_early(body: &syn::Block) -> bool {
+    struct V(bool, usize);
+    impl<'ast> syn::visit::Visit<'ast> for V {
+        fn visit_expr_break(&mut self, b: &'ast syn::ExprBreak) {
+            if self.1 == 0 || b.label.is_some() {
+                self.0 = true;
+            }
+        }
+        fn visit_expr_continue(&mut self, b: &'ast syn::ExprContinue) {
+            if self.1 == 0 || b.label.is_some() {
+                self.0 = true;
+            }
+        }
+        fn visit_expr_return(&mut self, _r: &'ast syn::ExprReturn) {
+            self.0 = true;
+        }
+        fn visit_expr_for_loop(&mut self, l: &'ast syn::ExprForLoop) {
+            self.1 += 1;
+            syn::visit::visit_expr_for_loop(self, l);
+            self.1 -= 1;
+        }
+        fn visit_expr_while(&mut self, l: &'ast syn::ExprWhile) {
+            self.1 += 1;
+            syn::visit::visit_expr_while(self, l);
+            self.1 -= 1;
+        }
+        fn visit_expr_loop(&mut self, l: &'ast syn::ExprLoop) {
+            self.1 += 1;
+            syn::visit::visit_expr_loop(self, l);
+            self.1 -= 1;
+        }
+        fn visit_expr_closure(&mut self, _c: &'ast syn::ExprClosure) {}
+    }
+    let mut v = V(false, 0);
+    syn::visit::Visit::visit_block(&mut v, body);
+    v.0
+}
+
 fn path_last_seg(p: &syn::Path) -> String {
     p.segments.last().map(|s| s.ident.to_string()).unwrap_or_default()
 }
